@@ -9,11 +9,12 @@
    Freed-memory accesses -- what ASan reports on the harness -- are the flag fl.uaf; use of a
    transport that was already torn down is fl.tornUse.
 
-   Fix  \subseteq {1,2,3,4,6}: which of the proposed repairs are applied (the unchanged tree is Fix = {}):
+   Fix  \subseteq {1,2,3,4,6,7}: which of the proposed repairs are applied (the unchanged tree is Fix = {}):
         1 disconnect of a SHUTTING_DOWN connection does nothing; 2 the dispatcher holds a reference;
         3 the dispatcher stops delivering after a disconnect; 4 sends / flow control skip a connection whose
-        transport is gone; 6 qb_ipcs_destroy walks the list holding references.
-   Skip \subseteq {1,2,3,4,6}: application moves left out because they fall under a recorded finding
+        transport was torn down before it was established; 6 qb_ipcs_destroy walks the list holding references;
+        7 the rate limit leaves connections alone whose descriptors are closed (SHUTTING_DOWN).
+   Skip \subseteq {1,2,3,4,6,7}: application moves left out because they fall under a recorded finding
         (the same predicates as the harness's --kf-skip).                                            *)
 EXTENDS IpcLife
 CONSTANTS MaxConn, MaxBody, MaxTop, MaxRetry, Fix, Skip
@@ -101,7 +102,10 @@ AppIterNext(base) ==
   /\ ex' = base /\ UNCHANGED retv
 AppRate(base) ==
   /\ SvcHeld /\ ~(Has(Skip, 4) /\ \E i \in 1..Len(im.lst) : im.torn[im.lst[i]])
-  /\ fl' = [fl EXCEPT !.uaf = @ \/ im.svcFreed, !.tornUse = @ \/ (~Has(Fix, 4) /\ \E i \in 1..Len(im.lst) : im.torn[im.lst[i]])]
+  /\ ~(Has(Skip, 7) /\ \E c \in Ids : Live(c) /\ conn[c].ncl > 0)
+  /\ fl' = [fl EXCEPT !.uaf = @ \/ im.svcFreed,
+                      !.tornUse = @ \/ (~Has(Fix, 4) /\ \E i \in 1..Len(im.lst) : im.torn[im.lst[i]])
+                                    \/ (~Has(Fix, 7) /\ \E i \in 1..Len(im.lst) : im.ist[im.lst[i]] = SHUTTING_DOWN)]
   /\ NoObs /\ ex' = base /\ UNCHANGED <<im, retv>>
 AppDestroy ==
   /\ ~svcD /\ ~KfDestroy
